@@ -175,7 +175,18 @@ let check_line (l : string) : string =
       if List.length rs >= 2 && List.for_all (fun r -> r.kind = KOp) rs then begin
         let calls = List.concat (List.map (function LOpCall x when List.exists (fun r -> r.rid = int_of_nat x) rs -> [int_of_nat x] | _ -> []) labels) in
         if calls <> List.sort compare calls then bad (Printf.sprintf "ORACLE C08.group_not_executed_in_arrival_order tag=%d %s" tg where);
-        (* one at a time: OC of the next only after the previous one's reply was queued or sent *)
+        (* one at a time: a member is handed to the implementation only after the previous member was answered *)
+        let pos_of p = index_of p labels in
+        let rec pairs = function
+          | a :: (b :: _ as rest) ->
+            let ocb = pos_of (function LOpCall x -> int_of_nat x = b.rid | _ -> false) in
+            let oca = pos_of (function LOpCall x -> int_of_nat x = a.rid | _ -> false) in
+            let ana = pos_of (function LAnswer (x, _) -> int_of_nat x = a.rid | _ -> false) in
+            if ocb >= 0 && oca >= 0 && (ana < 0 || ocb < ana) then
+              bad (Printf.sprintf "ORACLE C08.group_member_started_before_its_predecessor_was_answered tag=%d %s" tg where);
+            pairs rest
+          | _ -> () in
+        pairs (List.sort (fun a b -> compare a.rid b.rid) rs);
         let contents = List.concat (List.map (fun r -> match produced r.rid with v :: _ -> [v] | [] -> []) rs) in
         let wc = List.concat (List.map (fun (x, c) -> if x = tg then [c] else []) wire) in
         let rec is_prefix a b = match a, b with [], _ -> true | x :: a', y :: b' -> N.eqb x y && is_prefix a' b' | _ -> false in
